@@ -18,7 +18,9 @@ STAGES = ["sigtimes", "snapshots", "sequence", "srt", "srt_plain", "vtt", "vtt_c
           "imsc_clockframes", "lcd", "lcd_snapshots", "lcd_srt", "lcd_vtt", "lcd_imsc"]
 
 BOUNDARY = [b"0", b"-1", b"99999999999999999999", b"1e999", b"00", b"255", b"", b"60", b"59.9999", b"9" * 400, b"0." + b"0" * 400 + b"1"]
-JUNK = [b"\x00", b"\xff\xfe", b"<", b">", b"&", b"-->", b"{\\an8}", b"</b>", b"<i>", b"\t", b"%", b"\xe2\x80\xa8", b"[", b"\"", b"'"]
+JUNK = [b"\x00", b"\xff\xfe", b"<", b">", b"&", b"-->", b"{\\an8}", b"</b>", b"<i>", b"\t", b"%", b"\xe2\x80\xa8", b"[", b"\"", b"'",
+        # numerals as lenient number parsers (int(), float(), Fraction()) take them: sign, prefix, digit separator, other digits
+        b"-123", b"+123", b"0x1f", b"1_23", b"\xef\xbc\x91\xef\xbc\x92\xef\xbc\x93\xef\xbc\x94", b"%s", b"{0}"]
 
 
 # format-aware junk: legal-looking tokens of the format dropped where they make no sense
@@ -28,7 +30,7 @@ JUNK_BY_FMT = {
   "vtt": [b"<rt>", b"</ruby>", b"<ruby>", b"<c.>", b"<v>", b"<lang>", b"<00:00:01.000>", b"<99:99:99.999>", b"&#x110000;", b"&#xD800;", b"NOTE", b"STYLE",
           b"REGION", b"line:abc", b"position:200%", b"size:-1%", b"align:", b"vertical:xx", b"00:00.000 --> 00:01.000 line:0", b"-->"],
   "scc": [b"94a1 94a1", b"1220 1220", b"9724 9724", b"942f", b"94ad 94ad", b"9425 9425", b"9429 9429", b"9420 9420", b"97a1", b"zzzz", b"94", b"942c942c",
-          b"00:00:00:00\t", b"99:99:99;99\t9420", b"1c20 1c20", b"91b0"],
+          b"00:00:00:00\t", b"99:99:99;99\t9420", b"1c20 1c20", b"91b0", b"-420", b"+420", b"0x94", b"9_20", b" 942", b"94aE", b"-000"],
   "ttml": [b"tts:color=\"\"", b"begin=\"\"", b"style=\"s1 s1 sX\"", b"region=\"nope\"", b"tts:fontSize=\"1em 2em 3em\"", b"xml:space=\"x\"",
            b"timeContainer=\"x\"", b"tts:textShadow=\"1px\"", b"tts:extent=\"auto\"", b"ttp:frameRate=\"0\"", b"ttp:cellResolution=\"0 0\"",
            b"tts:extent=\"" + b"9" * 400 + b"px 480px\"", b"tts:fontSize=\"" + b"9" * 400 + b"px\"", b"begin=\"" + b"9" * 400 + b"s\"",
